@@ -77,6 +77,15 @@ func (x *ctx) fail(sig, format string, args ...any) {
 	st, _ := x.step.Load().(string)
 	x.msg = fmt.Sprintf(format, args...) + "\n  at step " + st
 }
+// resig replaces the signature of the recorded failure by a more specific defect class.
+func (x *ctx) resig(sig, why string) {
+	x.mu.Lock()
+	defer x.mu.Unlock()
+	if x.sig != "" && x.sig != sig {
+		x.msg = why + " [" + x.sig + "]: " + x.msg
+		x.sig = sig
+	}
+}
 func (x *ctx) at(format string, args ...any) { x.step.Store(fmt.Sprintf(format, args...)) }
 
 var kapFrame = regexp.MustCompile(`(?m)^(github\.com/influxdata/kapacitor[^\s(]*(?:\([^)]*\))?[^\s(]*)\(`)
